@@ -59,5 +59,42 @@ def switch : Op
     some [.list ((Switch.run (Switch.init n.toNat pkpd regimen) ops).map seenVal)]
   | _ => none
 
-def ops : List (String × Op) := [("C03.s1", s1), ("C03.place", place), ("C03.switch", switch)]
+/-- a Python float as a score: `nan` → undefined, `-inf` → the guard value -/
+def toScore (x : Float) : Score Float :=
+  if x.isNaN then .undefined else if x == -(1.0 / 0.0) then .negInf else .val x
+
+/-- an individual at the point: `None` = its mechanistic model raises, a float = the error models' score -/
+def parseSim : Val → Option (Guarded.Sim Float)
+  | .none => some .raises
+  | .flt x => some (.delivers (toScore x))
+  | _ => none
+
+def gradVal : Guarded.GradOut Float → Val
+  | .assembled _ => .str "assembled"
+  | .allInf n => .list [.str "allinf", .int (Int.ofNat n)]
+
+/-- `C03.guarded nPar prior pop inds`: `prior` / `pop` a float or `None` (no prior / an individual
+    likelihood: `inds` has one entry) → score of plain evaluation, score of `evaluateS1`, and for the
+    individual likelihood what is handed out as gradient -/
+def guarded : Op
+  | [.int nPar, priorV, popV, indsV] => do
+    if nPar < 0 then none
+    let prior ← priorV.opt? Val.flt?
+    let pop ← popV.opt? Val.flt?
+    let inds ← (← indsV.list?).mapM parseSim
+    let n := nPar.toNat
+    let (c, s, g) ← match pop, inds with
+      | .none, [sim] =>
+        let r := Guarded.llS1 n [] sim
+        some (Guarded.llCall sim, r.1, gradVal r.2)
+      | .none, _ => none
+      | some p, _ => some (Guarded.hierCall (toScore p) inds, Guarded.hierS1 n [] (toScore p) inds, Val.none)
+    match prior with
+    | .none => some [scoreVal c, scoreVal s, g]
+    | some pr => some [scoreVal (Guarded.withPrior (toScore pr) (fun _ => c)),
+                       scoreVal (Guarded.withPrior (toScore pr) (fun _ => s)), g]
+  | _ => none
+
+def ops : List (String × Op) :=
+  [("C03.s1", s1), ("C03.place", place), ("C03.switch", switch), ("C03.guarded", guarded)]
 end ChiDriver.C03
